@@ -13,6 +13,7 @@ package main
 import (
 	"bufio"
 	"flag"
+	"testing"
 	"fmt"
 	"os"
 	"strings"
@@ -170,16 +171,25 @@ func guard(f func() string) (res string) {
 	return f()
 }
 
-func main() {
-	if len(os.Args) < 2 {
-		fmt.Fprintln(os.Stderr, "usage: harness gen <group> [flags] | harness replay | harness groups")
-		os.Exit(2)
+// theT is the *testing.T of TestHarness: the harness is built as a test binary because
+// testing/synctest (virtual time for the timed properties) is only available inside a test.
+var theT *testing.T
+
+// TestHarness is the entry point:  harness.test -test.run '^TestHarness$' -test.timeout 0 <cmd> <args...>
+func TestHarness(t *testing.T) {
+	theT = t
+	args := flag.Args()
+	if len(args) < 1 {
+		t.Skip("harness: no command (this binary is driven by /verif/bin/check)")
 	}
 	out := bufio.NewWriterSize(os.Stdout, 1<<16)
 	curOut = out
-	defer out.Flush()
 	flushLine := os.Getenv("VERIF_FLUSH") == "1"
-	switch os.Args[1] {
+	finish := func(code int) {
+		out.Flush()
+		os.Exit(code) // skip the testing package's PASS/ok chatter on stdout
+	}
+	switch args[0] {
 	case "groups":
 		for k := range gens {
 			fmt.Fprintln(out, k)
@@ -190,14 +200,14 @@ func main() {
 		seed := fs.Uint64("seed", 1, "seed")
 		shard := fs.Int("shard", 0, "shard index")
 		of := fs.Int("of", 1, "number of shards")
-		if len(os.Args) < 3 {
-			os.Exit(2)
+		if len(args) < 2 {
+			finish(2)
 		}
-		fs.Parse(os.Args[3:])
-		gen, ok := gens[os.Args[2]]
+		fs.Parse(args[2:])
+		gen, ok := gens[args[1]]
 		if !ok {
-			fmt.Fprintf(os.Stderr, "harness: unknown group %q\n", os.Args[2])
-			os.Exit(2)
+			fmt.Fprintf(os.Stderr, "harness: unknown group %q\n", args[1])
+			finish(2)
 		}
 		g := &Gen{Tier: *tier, Seed: *seed, Shard: *shard, Of: *of, out: out, flushLine: flushLine}
 		gen(g)
@@ -240,7 +250,8 @@ func main() {
 		}
 		flush()
 	default:
-		fmt.Fprintln(os.Stderr, "harness: unknown command", os.Args[1])
-		os.Exit(2)
+		fmt.Fprintln(os.Stderr, "harness: unknown command", args[0])
+		finish(2)
 	}
+	finish(0)
 }
